@@ -173,6 +173,11 @@ def declaredOk (kind : Str) (v : Val) : Bool :=
   let t := ((v.field "nats").field "type").asStr
   t == [] || t == kind
 
+/-- ... and a nats section that declares a newer version than the one the payload was identified with (a top-level
+`type` says version 1): the claims returned must not report a version whose signature layout was not checked (repair D14) -/
+def versionOk (ver : Int) (v : Val) : Bool :=
+  decide (((v.field "nats").field "version").asInt ≤ ver)
+
 /-- does a decoded account carry tiered JetStream limits? -/
 def accountHasTiers (v : Val) : Bool :=
   match ((v.field "nats").field "limits").field "tiered_limits" with
@@ -218,10 +223,10 @@ def loadTyped (k : Kind) (ver : Int) (j : Json) : DRes Val :=
     else .error .err
   | .authRequest => do
     let v ← decodeJson Gen.V2.AuthorizationRequestClaims (zero Gen.V2.AuthorizationRequestClaims) j
-    if declaredOk Gen.V2.cAuthorizationRequestClaim v then pure v else .error .err
+    if declaredOk Gen.V2.cAuthorizationRequestClaim v && versionOk ver v then pure v else .error .err
   | .authResponse => do
     let v ← decodeJson Gen.V2.AuthorizationResponseClaims (zero Gen.V2.AuthorizationResponseClaims) j
-    if declaredOk Gen.V2.cAuthorizationResponseClaim v then pure v else .error .err
+    if declaredOk Gen.V2.cAuthorizationResponseClaim v && versionOk ver v then pure v else .error .err
   | .generic => decodeJson Gen.V2.GenericClaims (zero Gen.V2.GenericClaims) j
 
 structure Claims where
